@@ -396,10 +396,20 @@ func injectionVerdict1(run *core.Run, c *core.Case) {
 	}
 	if len(c.Ints) == 2 {
 		found := false
+		// the message hint only tells several errors of one text apart; if no error of this text carries it (a
+		// reworded message) the position alone decides
+		anyHint := false
+		for _, m := range ms {
+			for _, h := range c.Strs {
+				if strings.Contains(m[3], h) {
+					anyHint = true
+				}
+			}
+		}
 		for _, m := range ms {
 			ln, _ := strconv.Atoi(m[1])
 			col, _ := strconv.Atoi(m[2])
-			hint := len(c.Strs) == 0
+			hint := len(c.Strs) == 0 || !anyHint
 			for _, h := range c.Strs {
 				if strings.Contains(m[3], h) {
 					hint = true
